@@ -23,6 +23,7 @@ type ncSession struct {
 }
 
 type ncConfig struct {
+	trace        bool // record the pipe's deliver / recv events
 	adv10, adv11 bool
 	preferred    string
 	echo         bool
@@ -56,6 +57,7 @@ func newNcSession(c ncConfig) (*ncSession, error) {
 	pipe := simdev.NewPipe(srv, c.seed)
 	pipe.Seg = c.seg
 	pipe.MsgBounds = true // one read never carries bytes of two server messages
+	pipe.RecordTrace = c.trace
 	pipe.ReadDelay = c.devDelay
 
 	if c.timeout == 0 {
